@@ -72,6 +72,8 @@ int f_fn(long (*cb)(long, unsigned), void (*gf)(void));
 long f_struct(SimPair pr);
 long f_struct3(SimPair3 pr);
 long f_callS(long (*cb)(SimPair), SimPair pr);
+int f_image_decoder_pipeline_process_header_block(int v);
+int f_image_decoder_pipeline_process_pixels_block(int v);
 SimPair f_ret_struct(long a);
 void f_void(void);
 unsigned long f_many(int a0, int a1, int a2, int a3, int a4, int a5, int a6, int a7, int a8, int a9, int a10, unsigned a11);
@@ -123,10 +125,13 @@ enum FnId
   FN_CALLC,
   FN_STRUCT3,
   FN_CALLS,
+  FN_LONG1,
+  FN_LONG2,
   FN_COUNT
 };
 static const char* kFnName[] = { "f_ints", "f_fp", "f_enum", "f_ptrs", "f_fn", "f_struct", "f_ret_struct", "f_void", "f_many", "f_u",
-                                 "f_rs", "f_ruc", "f_rll", "f_rb", "f_rf", "f_fnret", "f_callc", "f_struct3", "f_callS" };
+                                 "f_rs", "f_ruc", "f_rll", "f_rb", "f_rf", "f_fnret", "f_callc", "f_struct3", "f_callS",
+                                 "f_image_decoder_pipeline_process_header_block", "f_image_decoder_pipeline_process_pixels_block" };
 
 struct GuestRec
 {
@@ -204,6 +209,16 @@ struct G
     g_callc_guest_got = (uint32_t)r;
     g_callc_returned = true;
     return r;
+  }
+  static int32_t long1(int32_t v)
+  {
+    grec(FN_LONG1, LIB, { (uint64_t)(int64_t)v });
+    return 1000 + v;
+  }
+  static int32_t long2(int32_t v)
+  {
+    grec(FN_LONG2, LIB, { (uint64_t)(int64_t)v });
+    return 2000 + v;
   }
   static int32_t st3(GPair3 pr)
   {
@@ -304,7 +319,9 @@ static std::vector<Sym> make_lib()
                          { "f_rll", (void*)&G<LIB>::rll },       { "f_rb", (void*)&G<LIB>::rb },
                          { "f_rf", (void*)&G<LIB>::rf },         { "f_fnret", (void*)&G<LIB>::fnret },
                          { "f_callc", (void*)&G<LIB>::callc },   { "f_struct3", (void*)&G<LIB>::st3 },
-                         { "f_callS", (void*)&G<LIB>::callS } };
+                         { "f_callS", (void*)&G<LIB>::callS },
+                         { "f_image_decoder_pipeline_process_header_block", (void*)&G<LIB>::long1 },
+                         { "f_image_decoder_pipeline_process_pixels_block", (void*)&G<LIB>::long2 } };
   if (LIB == 1)
     std::reverse(v.begin(), v.end()); // same names, different table indices
   return v;
@@ -974,8 +991,25 @@ struct InvokeWorld : World
     }
   }
 
-  void op_void(SbxM& m)
+  void op_void(SbxM& m, const Op& op)
   {
+    if (op.a[1] & 2) {
+      // two functions whose names agree in their first 38 characters
+      bool second = (op.a[1] & 1) != 0;
+      int v = (int)(op.a[2] % 100);
+      Expect e;
+      e.args = { (uint64_t)(int64_t)v };
+      size_t before = g_glog.size();
+      int got = 0;
+      Outcome o = attempt([&] {
+        got = second ? m.sb->invoke_sandbox_function(f_image_decoder_pipeline_process_pixels_block, v).UNSAFE_unverified()
+                     : m.sb->invoke_sandbox_function(f_image_decoder_pipeline_process_header_block, v).UNSAFE_unverified();
+      });
+      C->probe("functions_with_long_common_name_prefix_invoked");
+      if (judge(m, second ? FN_LONG2 : FN_LONG1, o, before, e, "void") && got != (second ? 2000 : 1000) + v)
+        C->violate("C11", "wrong_result@void", "long-named function returned %d", got);
+      return;
+    }
     Expect e;
     size_t before = g_glog.size();
     Outcome o = attempt([&] { m.sb->invoke_sandbox_function(f_void); });
@@ -1139,7 +1173,7 @@ struct InvokeWorld : World
   // The name is passed in a scratch buffer that is reused for another name straight afterwards.
   void op_byname(SbxM& m, const Op& op)
   {
-    static char namebuf[32];
+    static char namebuf[96];
     int fn = (int)((uint64_t)op.a[4] % FN_COUNT);
     int other = (int)((uint64_t)op.a[5] % FN_COUNT);
     snprintf(namebuf, sizeof namebuf, "%s", kFnName[fn]);
@@ -1454,7 +1488,7 @@ struct InvokeWorld : World
           op_ret_struct(m, op);
           break;
         case I_VOID:
-          op_void(m);
+          op_void(m, op);
           break;
         case I_MANY:
           op_many(m, op);
